@@ -56,32 +56,35 @@
    ResumeReenters (resume_reading calls data_received(b"")), PauseReachesParser
    (pause_reading reaches the payload parser), KeepPending (_pending_unused_data kept),
    CheckEachChunk (413 test inside the read loop), ErrChecked (a read call raises the stored
-   payload error before it takes anything).                                      *)
+   payload error before it takes anything), PendingCountsAvail (data_available also reports input
+   parked for the next call: unconsumed_tail / _pending_unused_data), LineKeepsLimits (a line read -
+   read size 0 in ReadSizes - leaves the water marks alone).                                      *)
 EXTENDS Naturals, Sequences, FiniteSets, TLC
 
 CONSTANTS Mode, Codec, Side, Limit, Big, MaxPieces, MaxUnits, ReadSizes, ClientMax,
           WithMembers, WithCorrupt, WithTrunc, MidChunkCuts, ZeroUnits,
           ClearStalePause, EofKeepsParser,
-          UseBudget, ResumeReenters, PauseReachesParser, KeepPending, CheckEachChunk, ErrChecked
+          UseBudget, ResumeReenters, PauseReachesParser, KeepPending, CheckEachChunk, ErrChecked,
+          PendingCountsAvail, LineKeepsLimits
 
 VARIABLES netLeft, finSent, inbox, tPaused, netEof,          \* network / transport
           rPaused, connected,                                 \* protocol
           pst, pPaused, more, tail, eofPending, hasMore, finSeen,   \* parser
           pendIn, pendOut, lastOut,                           \* decoder
           buf, low, high, reof, rexc,                         \* reader (buf: sizes of the buffered chunks)
-          cst, acc, want, cnt,                                \* consumer
+          cst, acc, want, cnt, req,                           \* consumer (req: largest size it asked for)
           owed, afterErr,                                     \* bookkeeping (history)
           pc, ret, arg
 
 vars == <<netLeft, finSent, inbox, tPaused, netEof, rPaused, connected,
           pst, pPaused, more, tail, eofPending, hasMore, finSeen,
-          pendIn, pendOut, lastOut, buf, low, high, reof, rexc, cst, acc, want, cnt,
+          pendIn, pendOut, lastOut, buf, low, high, reof, rexc, cst, acc, want, cnt, req,
           owed, afterErr, pc, ret, arg>>
 
 netv == <<netLeft, finSent, inbox, netEof>>
 parv == <<pst, pPaused, more, tail, eofPending, hasMore, finSeen>>
 decv == <<pendIn, pendOut, lastOut>>
-conv == <<cst, acc, want, cnt>>
+conv == <<cst, acc, want, cnt, req>>
 
 INF == 1000            \* "no limit": read() / read(-1) set the water marks to sys.maxsize
 M == 100               \* member end
@@ -113,7 +116,7 @@ Init ==
     /\ hasMore = FALSE /\ finSeen = FALSE
     /\ pendIn = <<>> /\ pendOut = 0 /\ lastOut = 0
     /\ buf = <<>> /\ low = Limit /\ high = 2 * Limit /\ reof = FALSE /\ rexc = FALSE
-    /\ cst = "run" /\ acc = 0 /\ want = 0 /\ cnt = 0
+    /\ cst = "run" /\ acc = 0 /\ want = 0 /\ cnt = 0 /\ req = 0
     /\ owed = 0 /\ afterErr = FALSE
     /\ pc = "idle" /\ ret = "net" /\ arg = NoPiece
 
@@ -142,8 +145,8 @@ Dec(pin, pout, room, out) ==
 \* decompressor.data_available after a call that returned `out` units
 Avail(r) ==
     CASE Codec = "identity" -> FALSE                                  \* StreamReader.feed_data returns False
-      [] Codec = "zstd" -> r.pin # <<>> \/ r.pout > 0                  \* not needs_input, or pending
-      [] OTHER -> r.pin # <<>> \/ r.pout > 0 \/ r.out > 0              \* zlib / brotli: "not _last_empty"
+      [] Codec = "zstd" -> r.pout > 0 \/ (PendingCountsAvail /\ r.pin # <<>>)   \* not needs_input, or _pending_unused_data
+      [] OTHER -> r.pout > 0 \/ r.out > 0 \/ (PendingCountsAvail /\ r.pin # <<>>)   \* zlib / brotli: "not _last_empty"
 
 \* DeflateBuffer.feed_data(input) -> StreamReader.feed_data(out) -> (size > high) pause_reading
 \* sets: pendIn pendOut lastOut more buf rPaused pPaused tPaused pst rexc
@@ -326,16 +329,20 @@ ConsumerRead(n) ==
     /\ IF rexc /\ (ErrChecked \/ buf = <<>>)
        THEN \* `if self._exception is not None: raise self._exception` before anything is taken
             /\ cst' = "failed"
-            /\ UNCHANGED <<low, high, want, cnt, pc>>
+            /\ UNCHANGED <<low, high, want, cnt, pc, req>>
        ELSE IF buf = <<>>
        THEN \* StreamReader._wait: `if not self._protocol.connected: raise RuntimeError("Connection closed.")`
             /\ cst' = IF ~reof THEN "closed"
                       ELSE IF Side = "server" /\ acc > ClientMax THEN "413" ELSE "done"
-            /\ UNCHANGED <<low, high, want, cnt, pc>>
-       ELSE LET m == IF Side = "server" THEN ClientMax ELSE n IN        \* set_read_chunk_size(m)
-            /\ low' = IF m >= INF THEN INF ELSE Max(low, m)
-            /\ high' = IF m >= INF THEN INF ELSE IF m > low THEN 2 * m ELSE high
-            /\ want' = n
+            /\ UNCHANGED <<low, high, want, cnt, pc, req>>
+       ELSE \* set_read_chunk_size(m); n = 0 is a line read (readline / readuntil / async for line): it takes
+            \* one unit and does not touch the water marks (mutant: raises them to the high-water mark)
+            LET m == IF Side = "server" THEN ClientMax
+                     ELSE IF n = 0 THEN (IF LineKeepsLimits THEN 0 ELSE high) ELSE n IN
+            /\ low' = IF m >= INF THEN INF ELSE Min(INF, Max(low, m))
+            /\ high' = IF m >= INF THEN INF ELSE IF m > low THEN Min(INF, 2 * m) ELSE high
+            /\ req' = IF Side = "server" THEN Max(req, ClientMax) ELSE IF n = 0 THEN req ELSE Max(req, n)
+            /\ want' = IF n = 0 THEN 1 ELSE n
             /\ cnt' = IF n >= INF THEN Len(buf) ELSE 0       \* readany drains only the chunks present now
             /\ pc' = "read"
             /\ cst' = cst
@@ -357,7 +364,7 @@ ReadChunk ==
                /\ pc' = IF ResumeReenters THEN "entry" ELSE "resumetail"
                /\ ret' = "read" /\ arg' = NoPiece
           ELSE UNCHANGED <<rPaused, pc, ret, arg>>
-    /\ UNCHANGED <<netv, tPaused, connected, parv, decv, low, high, reof, rexc, cst, afterErr>>
+    /\ UNCHANGED <<netv, tPaused, connected, parv, decv, low, high, reof, rexc, cst, afterErr, req>>
 
 \* the read call returns
 ReadDone ==
@@ -365,7 +372,7 @@ ReadDone ==
     /\ pc' = "idle" /\ want' = 0 /\ cnt' = 0
     /\ cst' = IF Side = "server" /\ CheckEachChunk /\ acc > ClientMax THEN "413" ELSE cst
     /\ UNCHANGED <<netv, tPaused, rPaused, connected, parv, decv, buf, low, high, reof, rexc, acc, owed,
-                   afterErr, ret, arg>>
+                   afterErr, ret, arg, req>>
 
 \* mutant only (ResumeReenters = FALSE): resume_reading without the data_received(b"") call
 ResumeTail ==
@@ -405,13 +412,16 @@ Clean == ~WithCorrupt /\ ~WithTrunc
 
 \* decoded bytes buffered never exceed high water + one call's budget (= 3 * limit while the
 \* application has not raised the water marks); identity bodies: high water + one network piece
+\* The bound is relative to Lim = max(read_bufsize, largest size the application asked for): water marks
+\* that the code raises on its own must not lift it.
+Lim == Max(Limit, req)
 Resident ==
-    low < INF =>
-        IF Codec = "identity" THEN size <= high + MaxUnits * Big
-        ELSE size <= high + Max(Limit, low)
+    req < INF =>
+        IF Codec = "identity" THEN size <= 2 * Lim + MaxUnits * Big
+        ELSE size <= 3 * Lim
 
 \* a single decoder call never emits more than the budget
-OneCallBudget == (Codec # "identity" /\ low < INF) => lastOut <= Max(Limit, low)
+OneCallBudget == (Codec # "identity" /\ req < INF) => lastOut <= Lim
 
 \* conservation of units: what the peer sent is delivered, buffered, or still latent in the
 \* transport / the parser's held-back tail / the decoder - nothing is dropped
@@ -435,6 +445,10 @@ NetCanMove ==
 Stuck == pc = "idle" /\ cst = "run" /\ buf = <<>> /\ ~reof /\ ~rexc /\ connected /\ ~NetCanMove
 NoDeadlock == ~Stuck
 
+\* transparency at the level of units: when the application has seen the end of a well-formed body,
+\* it has been given every unit the peer sent (nothing is left parked in the decoder or the parser)
+EofMeansAllDelivered == (Clean /\ cst = "done") => owed = 0
+
 \* a well-formed body that the peer sent completely is never answered with an error
 NoSpuriousFailure == Clean => cst \notin {"failed", "closed"}
 
@@ -443,7 +457,7 @@ NoSpuriousFailure == Clean => cst \notin {"failed", "closed"}
 HeldBackImpliesPaused == (pc = "idle" /\ pst = "open" /\ hasMore /\ connected) => tPaused
 
 \* server: BaseRequest.read() never accumulates more than client_max_size + one readany() chunk
-MaxSize == Side = "server" => acc <= ClientMax + high + Max(Limit, low)
+MaxSize == Side = "server" => acc <= ClientMax + 3 * Lim
 NeverReturnsMore == (Side = "server" /\ cst = "done") => acc <= ClientMax
 
 \* reading always progresses to the end of the body (or to the reported error)
